@@ -54,6 +54,24 @@ M = {
  "code_first_time_only": ("src/incarnation_db.rs",
    "                account_snapshot.is_none_or(|basic| basic.code_hash != Some(info.code_hash));",
    "                account_snapshot.is_none_or(|basic| basic.code_hash.is_none());", "C09"),
+ "run_once_load_store": ("src/scheduler/control.rs",
+   "        self.started.compare_exchange(false, true, Ordering::Relaxed, Ordering::Relaxed).map_err(\n            |_| GrevmError {",
+   "        (if self.started.load(Ordering::Relaxed) { Err(()) } else { self.started.store(true, Ordering::Relaxed); Ok(()) }).map_err(\n            |_| GrevmError {", "C14"),
+ "claim_limit_off_by_one": ("src/scheduler/cursor.rs",
+   "        if current >= limit {\n            return None;\n        }",
+   "        if current > limit {\n            return None;\n        }", "C15"),
+ "frontier_no_reload": ("src/scheduler/context.rs",
+   "        let frontier = self.frontier.load(Ordering::Acquire);\n        if index == frontier {\n            self.advance(frontier);\n        }",
+   "        if index == frontier {\n            self.advance(frontier);\n        }", "C15"),
+ "remove_no_recheck": ("src/tx_dependency.rs",
+   "            if dependent.dependency == Some(txid) {\n                dependent.dependency = None;",
+   "            if true {\n                dependent.dependency = None;", "C16"),
+ "key_tx_ge": ("src/tx_dependency.rs",
+   "        if txid > commit_idx.get() {\n            state.dependency = Some(txid);",
+   "        if txid >= commit_idx.get() {\n            state.dependency = Some(txid);", "C16 C05"),
+ "commit_notify_before_publish": ("src/scheduler.rs",
+   "                self.scheduler_ctx.publish_finality(next_finality_idx);\n                if finality_idx == previous_finality_idx {\n                    // Start commit as soon as the first transaction in this batch is visible.\n                    self.commit_wait.notify();\n                }",
+   "                if finality_idx == previous_finality_idx {\n                    self.commit_wait.notify();\n                }\n                self.scheduler_ctx.publish_finality(next_finality_idx);", "C17 C05"),
  "f1_unfix_marker": ("src/parallel_state.rs", "XXX_NOT_PRESENT", "", ""),
 }
 
